@@ -491,6 +491,11 @@ pub fn run_plan_here(plan: &Plan) -> Outcome {
         st.tasks = vec![TaskState::default(); plan.threads.len() + 1];
         st.ev(&format!("seed {} stratum {}", plan.exec_seed, plan.stratum));
     }
+    // simulated time from here on (1 µs per reading unless the plan says otherwise)
+    seams::set_clock_step(if plan.clock_step_ns == 0 { 1_000 } else { plan.clock_step_ns });
+    if plan.clock_step_ns != 0 {
+        state().ev(&format!("fault clock step_ns={}", plan.clock_step_ns));
+    }
     HEAP_PERTURB.store(plan.heap_perturb as u64, std::sync::atomic::Ordering::SeqCst);
     HEAP_SEED.store(plan.exec_seed, std::sync::atomic::Ordering::SeqCst);
     if plan.heap_perturb > 0 {
@@ -534,5 +539,6 @@ pub fn run_plan_here(plan: &Plan) -> Outcome {
     out.counters = st.counters.clone();
     out.log = st.log.clone().unwrap_or_default();
     out.getrandom_calls = seams::GETRANDOM_CALLS.load(std::sync::atomic::Ordering::SeqCst);
+    out.clock_reads = seams::clock_reads();
     out
 }
